@@ -49,6 +49,7 @@ from linear_operator.utils.getitem import (
 )
 from linear_operator.utils.lanczos import _postprocess_lanczos_root_inv_decomp
 from linear_operator.utils.memoize import (
+    _get_from_cache_ignore_all_args,
     _is_in_cache_ignore_all_args,
     _is_in_cache_ignore_args,
     add_to_cache,
@@ -550,6 +551,12 @@ class LinearOperator(object):
             This method is used as an internal helper. Calling this method directly is discouraged.
         """
         raise NotImplementedError("_cholesky_solve not implemented for the base LinearOperator")
+
+    def _cached_diagonalization(self):
+        # the diagonalization that made _choose_root_method pick "diagonalization" (whichever method computed it)
+        if _is_in_cache_ignore_all_args(self, "diagonalization"):
+            return _get_from_cache_ignore_all_args(self, "diagonalization")
+        return self.diagonalization()
 
     def _choose_root_method(self) -> str:
         r"""
@@ -2228,7 +2235,7 @@ class LinearOperator(object):
             # TODO: only use non-zero evals (req. dealing w/ batches...)
             root = _scale_columns(evecs, evals.clamp_min(0.0).sqrt())
         elif method == "diagonalization":
-            evals, evecs = self.diagonalization()
+            evals, evecs = self._cached_diagonalization()
             root = _scale_columns(evecs, evals.clamp_min(0.0).sqrt())
         elif method == "svd":
             U, S, _ = self.svd()
@@ -2316,7 +2323,7 @@ class LinearOperator(object):
             # TODO: only use non-zero evals (req. dealing w/ batches...)
             inv_root = _scale_columns(evecs, evals.clamp_min(1e-7).reciprocal().sqrt())
         elif method == "diagonalization":
-            evals, evecs = self.diagonalization()
+            evals, evecs = self._cached_diagonalization()
             inv_root = _scale_columns(evecs, evals.clamp_min(1e-7).reciprocal().sqrt())
         elif method == "svd":
             U, S, _ = self.svd()
